@@ -2187,6 +2187,8 @@ class QuaternionArray(np.ndarray):
         q_norm = np.linalg.norm(q, axis=1)
         if sum(~(q_norm > 0)):
             raise ValueError("Quaternion values must be non-zero.")
+        if sum(~np.isfinite(q_norm)):
+            raise ValueError("Quaternion values must be finite.")
 
         # Build pure quaternions if given as N-by-3 array
         if q.shape[-1] == 3:
